@@ -661,7 +661,7 @@ def _post_time_match(args, kwargs, result, pre):
     nsig = len(vals)
     n = len(vals[m])
     if (kwargs.get('set_step', False) is not False or nsig < 2 or not isinstance(steps, (int, np.integer)) or steps < 1
-            or any(len(v) != n for v in vals) or n < 2 * steps + 2
+            or any(len(v) != n for v in vals) or n <= steps
             or not all(np.all(np.isfinite(v)) for v in vals)):
         ctx.observe('time_match.out-of-domain-call')
         return
@@ -703,6 +703,10 @@ def _post_time_match(args, kwargs, result, pre):
         if abs(L) == steps - 1 and L != 0:
             if ok_shift:
                 ctx.ok('time_match.lag-removed(|L|=steps-1)')      # counter only; a failure is recorded above
+        if n < 2 * steps + 2 and ok_shift:       # counters only (round 4): records short relative to the search window
+            ctx.ok('time_match.lag-removed(short record: npts < 2*steps+2)')
+            if abs(L) >= max(1, n // 2):
+                ctx.ok('time_match.lag-removed(short record, |L| >= npts//2)')
         if L == 0 and lagged_before:
             ctx.check(np.array_equal(aft[i], vals[i]), 'time_match.lag0-after-lagged-unchanged',
                       lambda: wit(signal=i, lag=L),
@@ -731,9 +735,15 @@ def _post_same_start(args, kwargs, result, pre):
     m = pre['master']
     dt = pre['dt']
     nsig = len(vals)
+    # the documented sentinel of get_section_average / time_indices: end = -1 means "to the end of the record"
+    sentinel = _is_number(end) and end == -1
     try:
-        in_dom = nsig >= 1 and 0 <= start <= end and all(end <= (len(v) - 1) * dt and len(v) > 0 for v in vals) \
-            and all(np.all(np.isfinite(v)) for v in vals)
+        if sentinel:
+            in_dom = nsig >= 1 and _is_number(start) and 0 <= start and all(len(v) >= 2 and start <= (len(v) - 2) * dt for v in vals) \
+                and all(np.all(np.isfinite(v)) for v in vals)
+        else:
+            in_dom = nsig >= 1 and 0 <= start <= end and all(end <= (len(v) - 1) * dt and len(v) > 0 for v in vals) \
+                and all(np.all(np.isfinite(v)) for v in vals)
     except Exception:
         in_dom = False
     if not in_dom:
@@ -759,8 +769,10 @@ def _post_same_start(args, kwargs, result, pre):
     # the window holds the samples i0..i1 under every rounding convention; read back through the public index form
     avx = None
     nmin = min(len(v) for v in vals)
-    i0, i1 = O.whole_sample_time(start, dt, nmin), O.whole_sample_time(end, dt, nmin)
-    if i0 is not None and i1 is not None and i0 <= i1 and all(len(a_) == len(v_) for a_, v_ in zip(aft, vals)):
+    i0, i1 = O.whole_sample_time(start, dt, nmin), (None if sentinel else O.whole_sample_time(end, dt, nmin))
+    if sentinel:
+        ctx.observe('same_start.window-to-the-end-of-the-record(end=-1)')
+    elif i0 is not None and i1 is not None and i0 <= i1 and all(len(a_) == len(v_) for a_, v_ in zip(aft, vals)):
         try:
             avx = [float(s.get_section_average(start=i0, end=i1 + 1, index=True)) for s in sigs]      # monitored as well
         except Exception as e:
@@ -771,8 +783,14 @@ def _post_same_start(args, kwargs, result, pre):
     # LOCAL scale: the largest magnitudes inside (a one-sample superset of) the section window, plus the applied shift
     wmax = []
     for v in vals:
-        lo, hi = O.window_superset(len(v), dt, start, end)
+        lo, hi = O.window_superset(len(v), dt, start, (len(v) - 1) * dt if sentinel else end)
         wmax.append(float(np.max(np.abs(v[lo:hi]))))
+    # end = -1 with the start at a sample time i0: the section is "from sample i0 to the end of the record". Computed by the
+    # oracle from the samples under BOTH readings of "to the end" (the source slices values[i0:-1], i.e. without the last sample;
+    # the docstring does not say): one and the same reading must equalise the averages of every signal
+    sent_means = None
+    if sentinel and i0 is not None and all(len(a_) == len(v_) and i0 <= len(a_) - 2 for a_, v_ in zip(aft, vals)):
+        sent_means = [[O.section_mean(a_.tolist(), i0, len(a_) - drop)[0] for a_ in aft] for drop in (1, 0)]
     for i in range(nsig):
         if i == m:
             continue
@@ -789,6 +807,15 @@ def _post_same_start(args, kwargs, result, pre):
                   lambda: wit(signal=i, shift=shift, sample=jw, deviation=dev, allowed=allowed),
                   'same_start changed signal %d by something other than a constant (at sample %r after-before deviates from '
                   'the shift %r by %.3g > %.3g; length %d -> %d)' % (i, jw, shift, dev, allowed, len(vals[i]), len(aft[i])))
+        if sent_means is not None:
+            devs = [abs(sm[i] - sm[m]) for sm in sent_means]
+            oks = any(math.isfinite(d_) and d_ <= rt_avg * scale for d_ in devs)
+            ctx.check(oks, 'same_start.section-average(end=-1: to the end of the record)==master',
+                      lambda: wit(signal=i, first_sample=i0, means_without_last_sample=[sent_means[0][i], sent_means[0][m]],
+                                  means_with_last_sample=[sent_means[1][i], sent_means[1][m]], allowed=rt_avg * scale),
+                      'same_start(start=%r, end=%r), %d signals, master %d: afterwards the mean of signal %d from sample %d to the end '
+                      'of the record differs from the master\'s both without the last sample (|diff| %.3g) and with it (|diff| %.3g); '
+                      'allowed %.3g' % (start, end, nsig, m, i, i0, devs[0], devs[1], rt_avg * scale))
         if avx is not None:
             okx = math.isfinite(avx[i]) and abs(avx[i] - avx[m]) <= rt_avg * scale
             ctx.check(okx, 'same_start.section-average(index-form)==master',
@@ -809,15 +836,46 @@ def _is_index(v):
     return isinstance(v, (int, np.integer)) and not isinstance(v, (bool, np.bool_))
 
 
+def _is_number(v):
+    return isinstance(v, (int, float, np.integer, np.floating)) and not isinstance(v, (bool, np.bool_))
+
+
 def _post_section_average(args, kwargs, result, pre):
     """get_section_average with the section given as sample indices (index=True): the mean of the samples start..end-1."""
     ctx = CTX
     index = _arg(args, kwargs, 3, 'index', False)
-    if index is False:
-        return           # time form: read back by the same_start monitor (its index convention is not judged)
     series = _arg(args, kwargs, 0, 'series')
     start = _arg(args, kwargs, 1, 'start', 0)
     end = _arg(args, kwargs, 2, 'end', -1)
+    if index is False:
+        # time form: read back by the same_start monitor (its index convention is not judged), except the documented defaults /
+        # sentinel end = -1 ("to the end of the record") with the start at a sample time: either reading of "to the end"
+        if not (_is_number(end) and end == -1 and _is_number(start)) or pre is None or pre.ndim != 1 or pre.dtype.kind not in 'fiu' \
+                or pre.size < 2 or not np.all(np.isfinite(pre)):
+            return
+        i0 = O.whole_sample_time(start, getattr(series, 'dt', 0.0), pre.size - 1)
+        if i0 is None:
+            return
+        refs = [O.section_mean(pre.tolist(), i0, pre.size - drop) for drop in (1, 0)]
+        rt = RTOL_AVG_F32 if pre.dtype.itemsize < 8 and pre.dtype.kind == 'f' else RTOL_AVG
+        try:
+            got = float(result)
+            okk = np.ndim(result) == 0 and math.isfinite(got) and any(abs(got - r_) <= rt * w_ for r_, w_ in refs)
+        except Exception:
+            got, okk = result, False
+
+        def wit_t(**kw):
+            if CURRENT is not None:
+                d = dict(CURRENT)
+                d['failing'] = dict(kw, call='get_section_average', start=start, end=end, index=False)
+                return d
+            return dict(kw, kind='section-average-call', values=pre, dt=getattr(series, 'dt', None), start=start, end=end)
+        ctx.check(okk, 'section-average(end=-1)==mean(samples from start to the end of the record)',
+                  lambda: wit_t(got=got, expected_without_last_sample=refs[0][0], expected_with_last_sample=refs[1][0]),
+                  'get_section_average(start=%r, end=%r) on %d samples (dt %r) returned %r; the mean from sample %d to the end of the '
+                  'record is %r without the last sample, %r with it' % (start, end, pre.size, getattr(series, 'dt', None), got, i0,
+                                                                       refs[0][0], refs[1][0]))
+        return
     if not (index is True or (isinstance(index, np.bool_) and bool(index))) or pre is None or pre.ndim != 1 \
             or pre.dtype.kind not in 'fiu' or not _is_index(start) or not _is_index(end) or not (0 <= start < end <= pre.size) \
             or not np.all(np.isfinite(pre)):
@@ -1616,6 +1674,22 @@ def container_unchanged(data, snap):
 def _window(rng, n, dt):
     """same_start keyword arguments: the default window (0, 1) when it fits, boundary windows, else random inside."""
     T = (n - 1) * dt
+    if n >= 2 and rng.random() < 0.14:
+        # round 4: the documented sentinel end = -1 ("to the end of the record", the default of get_section_average) with the
+        # default start, start = 0, a start at a sample time and a start anywhere; -1 as int, float and numpy scalars
+        e = [-1, -1, -1, -1.0, np.int64(-1), np.float64(-1.0)][int(rng.integers(6))]
+        j = int(rng.integers(6))
+        if j == 0:
+            return {'end': e}
+        if j == 1:
+            return {'start': 0, 'end': e}
+        if j == 2:
+            return {'start': 0.0, 'end': e, 'base': 0}
+        if j == 3:
+            return {'start': int(rng.integers(0, n - 1)) * dt, 'end': e}
+        if j == 4:
+            return {'start': (n - 2) * dt, 'end': e}                      # the last sample but one (alone or with the last)
+        return {'start': float(rng.uniform(0, (n - 2) * dt)), 'end': e}
     if rng.random() < 0.1:        # ends of the admissible range and numpy scalar forms of start / end
         j = int(rng.integers(7))
         if j == 0:
@@ -1677,7 +1751,12 @@ def _draw_steps(rng):
 EXTRA_SIZES = [1, 5, 6, 8, 12, 1, 7, 16]
 
 
-def make_cluster_case(rng, k, extra=False):
+SHORT_MODES = ['exact', 'exact', 'history', 'exact', 'exact']
+
+
+def make_cluster_case(rng, k, extra=False, short=False):
+    """short (round 4): records SHORT relative to the search window, steps < npts < 2*steps+2 (with the default steps=10: 11..21
+    samples), exact lags up to +-(steps-1), mostly |lag| >= npts//2; the same 141 (size, master, sign) patterns."""
     if extra:       # clusters of one and of many signals, master anywhere (mostly not index 0)
         nsig = EXTRA_SIZES[k % len(EXTRA_SIZES)]
         master = 0 if nsig == 1 else (int(rng.integers(1, nsig)) if rng.random() < 0.85 else 0)
@@ -1689,6 +1768,10 @@ def make_cluster_case(rng, k, extra=False):
         mode = MODES[(k // len(PATTERNS)) % len(MODES)]
         long_case = k in CLU_LONG_CASES
     steps, default_steps = _draw_steps(rng)
+    if short:
+        mode, long_case = SHORT_MODES[(k // len(PATTERNS)) % len(SHORT_MODES)], False
+        if rng.random() < 0.35:
+            steps, default_steps = 10, True
     form = CLUSTER_FORMS[int(rng.integers(len(CLUSTER_FORMS)))]
     if long_case:
         mode, steps, default_steps, form = CLU_LONG_CASES[k], 3, False, 'array2d'
@@ -1698,6 +1781,8 @@ def make_cluster_case(rng, k, extra=False):
     r = rng.random()
     if long_case:
         n = LONG_N + int(rng.integers(0, 5))
+    elif short:
+        n = nmin = int(rng.integers(steps + 1, 2 * steps + 2))
     elif mode == 'samestart' and r < 0.08:
         n, nmin = int(rng.integers(1, 4)), 1                  # 1-, 2-, 3-sample records (same_start only)
     elif r < 0.25:
@@ -1747,6 +1832,8 @@ def make_cluster_case(rng, k, extra=False):
             continue
         r = rng.random()
         mag = steps - 1 if (force_edge or r < 0.3) else (1 if r < 0.5 else int(rng.integers(1, steps)))
+        if short and not force_edge and steps - 1 >= max(1, n // 2) and rng.random() < 0.6:
+            mag = int(rng.integers(max(1, n // 2), steps))        # half of the record or more
         lags.append(s * mag)
     amp = float(np.max(np.abs(base))) or 1.0
     values = []
@@ -1762,7 +1849,7 @@ def make_cluster_case(rng, k, extra=False):
         values.append(v)
     ops = []
     tm_kw = _tm_kwargs(rng, steps, default_steps)
-    can_tm = n >= 2 * steps + 2
+    can_tm = n > steps if short else n >= 2 * steps + 2
     if mode == 'exact':
         ops.append(['time_match', tm_kw])
         if rng.random() < 0.5:
@@ -1875,6 +1962,9 @@ def make_cluster_case(rng, k, extra=False):
         s0 = [0, 0, n_eff - 1, int(rng.integers(0, n_eff)), int(rng.integers(0, n_eff))][j]
         e0 = [n_eff, 1, n_eff, s0 + 1, int(rng.integers(s0 + 1, n_eff + 1))][j]
         index_reads.append([int(rng.integers(nsig)), int(s0), int(e0), ['kw', 'positional', 'np.int64', 'np.bool', 'function'][int(rng.integers(5))]])
+    # round 4: the documented defaults / sentinel of the time form (start=0, end=-1: to the end of the record), read on a member
+    default_reads = [[int(rng.integers(nsig)), ['defaults', 'start=0', 'end=-1', 'start=i*dt', 'function-defaults', 'index=False'][int(rng.integers(6))],
+                      int(rng.integers(0, max(1, n_eff - 1)))]] if n_eff >= 2 else []
     st = rng.random()
     stypes = 'custom' if st < 0.35 else ('acc' if st < 0.7 else [str(rng.choice(['acc', 'custom'])) for _ in range(nsig)])
     names = None if rng.random() < 0.6 else ['rec%d' % i for i in range(nsig)]
@@ -1886,7 +1976,7 @@ def make_cluster_case(rng, k, extra=False):
             'twin': bool(rng.random() < 0.3 and not long_case),
             'warm': bool(rng.random() < 0.6), 'deepcopy_twin': bool(rng.random() < 0.3 and not long_case),
             'ctor_master': ctor_master, 'ctor_style': ['kw', 'kw', 'positional'][int(rng.integers(3))],
-            'index_reads': index_reads, 'copy_kind': ['deepcopy', 'pickle'][int(rng.integers(2))],
+            'index_reads': index_reads, 'default_reads': default_reads, 'copy_kind': ['deepcopy', 'pickle'][int(rng.integers(2))],
             'copy_after': int(rng.integers(0, len(ops) + 1)) if rng.random() < 0.5 else 0,
             'third_run': bool(rng.random() < 0.5)}
     if nsig >= 2 and not long_case and rng.random() < 0.35:
@@ -1933,6 +2023,28 @@ def _index_reads(eqsig, ctx, case, c):
         except Exception as e:
             ctx.exception('section-average(index=True)==mean(samples[start:end])',
                           dict(case, failing={'call': 'get_section_average', 'signal': int(i_), 'start': s0, 'end': e0, 'style': style}), e)
+    for i_, style, j0 in case.get('default_reads') or []:
+        if i_ >= len(c.signals):
+            continue
+        sig = c.signal_by_index(int(i_))
+        if sig.npts < 2 or not isinstance(sig.values, np.ndarray):
+            continue
+        try:
+            if style == 'defaults':
+                sig.get_section_average()
+            elif style == 'start=0':
+                sig.get_section_average(start=0)
+            elif style == 'end=-1':
+                sig.get_section_average(end=-1)
+            elif style == 'start=i*dt':
+                sig.get_section_average(start=min(int(j0), sig.npts - 2) * sig.dt, end=-1)
+            elif style == 'function-defaults':
+                eqsig.fns.average.get_section_average(sig)
+            else:
+                sig.get_section_average(0, -1, False)
+        except Exception as e:
+            ctx.exception('section-average(end=-1)==mean(samples from start to the end of the record)',
+                          dict(case, failing={'call': 'get_section_average', 'signal': int(i_), 'style': style}), e)
 
 
 def _run_ops(eqsig, ctx, case, c, ops, judged=True):
@@ -1993,6 +2105,12 @@ def _run_ops(eqsig, ctx, case, c, ops, judged=True):
                 if judged:
                     ctx.ok('%s.returns(no-exception)' % name)
         except Exception as e:
+            if name == 'same_start' and isinstance(e, TypeError) and isinstance(op[1].get('end'), (float, np.floating)) \
+                    and op[1].get('end') == -1:
+                # round 4, undecided: the sentinel handed over as a FLOAT (-1.0 == -1) is recognised by time_indices and then used
+                # as a slice index -> TypeError. Routed here until ruled (docstring: "end: int or float"); the call changes nothing
+                ctx.observe('pending-finding: same_start(end=-1.0) float form of the end sentinel raises TypeError')
+                continue
             clause = '%s.returns(no-exception)' % name if not name.startswith('sig.') else 'cluster.history-op(no-exception)'
             ctx.exception(clause, dict(case, failing={'op': [o if not isinstance(o, np.ndarray) else 'array' for o in op]}), e)
             return False
@@ -2141,8 +2259,14 @@ def run_shard(ctx):
     n_rot = 1500 if ctx.tier == 'quick' else 30000
     n_clu = 16 * len(PATTERNS) if ctx.tier == 'quick' else 284 * len(PATTERNS)
     n_extra = 192 if ctx.tier == 'quick' else 3200
-    for k in list(core.split_range(n_clu, ctx.shard, ctx.nshards)) + [-1 - j for j in core.split_range(n_extra, ctx.shard, ctx.nshards)]:
-        case = make_cluster_case(rng, k, extra=False) if k >= 0 else make_cluster_case(rng, -1 - k, extra=True)
+    n_short = 8 * len(PATTERNS) if ctx.tier == 'quick' else 120 * len(PATTERNS)       # round 4: records short relative to the search window
+    todo = [('c', k) for k in core.split_range(n_clu, ctx.shard, ctx.nshards)] + \
+        [('x', j) for j in core.split_range(n_extra, ctx.shard, ctx.nshards)] + \
+        [('s', j) for j in core.split_range(n_short, ctx.shard, ctx.nshards)]
+    for what, k in todo:
+        case = make_cluster_case(rng, k, extra=(what == 'x'), short=(what == 's'))
+        if what == 's':
+            ctx.observe('cluster.short-record-case')
         nontriv = any(l not in (0,) for i, l in enumerate(case['lags']) if i != case['master_index']) \
             or case['mode'] in ('samestart', 'workflow', 'levels', 'history')
         ctx.case(core.digest(case['values'], case['dt'], case['master_index'], repr(case['stypes']), case['container'],
